@@ -1374,6 +1374,12 @@ class LogixDriver(CIPDriver):
                             results[req.request_id] = Tag(
                                 req.tag, None, None, req.error or resp.error
                             )
+                    for req in request.requests:
+                        # replies the packet did not contain (whole packet refused or malformed)
+                        if req.request_id not in results:
+                            results[req.request_id] = Tag(
+                                req.tag, None, None, response.error or "No reply for request"
+                            )
         return results
 
     def send(self, request: RequestPacket):
